@@ -289,3 +289,7 @@ var pcStoreExceptions = map[string]internalPanic{
 	"triggerLine":       {1, "error raised by the line hook (a Lua function called through Call): it carries the hook's own position"},
 	"cleanupCloseStack": {1, "error raised by a __close handler run at function return: it carries the handler's own position"},
 }
+
+// globalsTable: run-time writes to package-level state accepted as
+// per-process by nature, keyed by the finding key, with the reason.
+var globalsTable = map[string]string{}
